@@ -14,3 +14,18 @@ pub(crate) fn ram_page_head(m: &ZXMemory, page: u8) -> &[u8] {
 pub(crate) fn ram_len(m: &ZXMemory) -> usize {
     m.ram.len()
 }
+
+// ---- snap-agent helpers ---------------------------------------------------------------------
+// Page-size abstraction for the SZX RAMP harnesses (hooks/core/szx.rs): two 16 KiB copies through
+// the chunk buffer exhaust CBMC (> 10 GB), so `ram_page_data_mut` is replaced by a version that
+// performs the same existence check and returns only the first `SHORT_PAGE` bytes of the page.
+pub(crate) const SHORT_PAGE: usize = 8;
+
+pub(crate) fn short_ram_page_data_mut(m: &mut super::ZXMemory, page: u8) -> &mut [u8] {
+    if (page as usize + 1) * super::PAGE_SIZE > m.ram.len() {
+        panic!("[ERROR] Ram page does not exists!");
+    }
+    let shift = page as usize * super::PAGE_SIZE;
+    &mut m.ram[shift..shift + SHORT_PAGE]
+}
+// ---- end snap-agent helpers -----------------------------------------------------------------
